@@ -104,7 +104,7 @@ def numba_build_skip_grams(
 
                 this_window = np.array([w[0] for w in win], dtype=np.int32)
                 time_deltas = np.array(
-                    [np.abs(w[1] - target_time) for w in win], dtype=np.float32
+                    [np.abs(w[1] - target_time) for w in win], dtype=np.float64
                 )
                 this_kernel = mix_weights[i] * kernel_functions[i](
                     this_window, time_deltas, *kernel_args[i]
